@@ -112,20 +112,31 @@ FnDomP(fn, p, bc) ==
                           IN Cross(b1, b2) # Zero3 /\ Cross(b2, b3) # Zero3
     [] OTHER -> TRUE
 (* the periodic value is specified: every displacement the function forms has a unique minimum
-   image inside the property's range (ties and the range beyond half the box height are unspecified) *)
-PairSpecified(d, B) ==
-  LET mins == MinImages(d, B, 2) IN
-  Cardinality(mins) = 1 /\ (IsOrthogonalBox(B) \/ Dom_HalfHeight(Norm2(CHOOSE x \in mins : TRUE), B))
-FnSpecified(fn, p, bo) ==
-  bo = <<>> \/ \A pr \in BondPairs(fn) : PairSpecified(VSub(p[pr[2]], p[pr[1]]), bo[1])
+   image inside the property's range (ties and the range beyond half the box height are
+   unspecified).  Orthogonal box: the minimum image is unique iff no fractional component of the
+   displacement is exactly 1/2.  Triclinic box: an image shorter than half the smallest box
+   height exists (it is then the unique minimum image, and all its fractions are below 1/2 in
+   absolute value, so it is one of the 8 images w + k.B, k in {-1,0}^3, of the wrapped
+   representative w).  Geometry!EvalVecBox decides that this agrees with the declarative
+   MinImages / Dom_MinImage. *)
+PairSpecifiedP(d, bx) ==
+  IF bx.ortho
+  THEN LET f == FracNumP(d, bx)  a == Abs(bx.d) IN \A i \in 1..3 : 2 * ModI(f[i], a) # a
+  ELSE LET w == MoveInsideP(d, bx)
+       IN Dom_HalfHeight(SetMin({Norm2(VAdd(w, LatVec(Shifts8[k], bx.B))) : k \in 1..8}), bx.B)
+FnSpecifiedP(fn, p, bc) ==
+  bc = <<>> \/ \A pr \in BondPairs(fn) : PairSpecifiedP(VSub(p[pr[2]], p[pr[1]]), bc[1])
 \* entry = <<value, specified, defined>>
-EntryOf(fn, p, bo, bc) == <<FnValueP(fn, p, bc), FnSpecified(fn, p, bo), FnDomP(fn, p, bc)>>
+EntryOf(fn, p, bc) == <<FnValueP(fn, p, bc), FnSpecifiedP(fn, p, bc), FnDomP(fn, p, bc)>>
 \* the result of fn(ops[1], .., ops[k], box = ba) as [model][atom] (a result of rank 2 has one
 \* model, of rank 1 one model and one atom)
-Broadcast(fn, ops, ba) ==
+BroadcastWith(E(_, _), ops, ba) ==
   LET bcs == EagerSeq([mi \in 1..ModelCount(ops) |-> CtxOf(BoxAt(ba, mi))]) IN
   [mi \in 1..ModelCount(ops) |-> [ai \in 1..AtomCount(ops) |->
-      EntryOf(fn, [j \in DOMAIN ops |-> OperandAt(ops[j], mi, ai)], BoxAt(ba, mi), bcs[mi])]]
+      E([j \in DOMAIN ops |-> OperandAt(ops[j], mi, ai)], bcs[mi])]]
+Broadcast(fn, ops, ba) == BroadcastWith(LAMBDA p, bc : EntryOf(fn, p, bc), ops, ba)
+\* the values and the "defined" flags only
+BroadcastValues(fn, ops, ba) == BroadcastWith(LAMBDA p, bc : <<FnValueP(fn, p, bc), FnDomP(fn, p, bc)>>, ops, ba)
 
 (* implementation-shaped: displacement() decides the order of the subtraction by the
    dimensionality of the operands ("an array can be only subtracted by an array with less
